@@ -259,7 +259,13 @@ fn execute_in_thread(world: &GroupWorld, exec: &GExec) -> ExecResult {
                 groups[*g].add_script(p, c);
             }
             GOp::AddStaleTmpl { g, f } => {
-                groups[*g].add_tmpl(&world.files[*f].path, "<view class=\"stale {{zz}}\">stale {{yy}}</view><template name=\"stale\"/>");
+                // (every other stale stand-in carries an inline script the final version may not have)
+                let stale = if *f % 2 == 0 {
+                    "<wxs module=\"stale_mod\">exports.x = function(){ return 'stale' }</wxs><view class=\"stale {{zz}}\">{{ stale_mod.x() }}</view>"
+                } else {
+                    "<view class=\"stale {{zz}}\">stale {{yy}}</view><template name=\"stale\"/>"
+                };
+                groups[*g].add_tmpl(&world.files[*f].path, stale);
             }
             GOp::AddStaleScript { g, s } => {
                 groups[*g].add_script(&world.scripts[*s].0, "exports.stale = function(){ return 'stale' }");
@@ -331,6 +337,37 @@ pub fn execute(world: &GroupWorld, exec: &GExec) -> Result<ExecResult, String> {
     h.join().map_err(|p| {
         p.downcast_ref::<String>().cloned().or_else(|| p.downcast_ref::<&str>().map(|s| s.to_string())).unwrap_or_else(|| "panic".into())
     })
+}
+
+/// Touch everything in the compilers that is initialised lazily and process-wide (see main.rs).
+pub fn warm_up() {
+    let h = std::thread::Builder::new().stack_size(64 << 20).spawn(|| {
+        let _ = std::panic::catch_unwind(|| {
+            let mut g = TmplGroup::new();
+            g.add_tmpl("warm/a", "<import src=\"b\"/><wxs module=\"m\">exports.f = function(){}</wxs><view class=\"c {{a}}\" data-x=\"{{b}}\" bind:tap=\"{{m.f}}\">&amp;&lt;&#123;&nbsp;{{ a ? b : 'c' }}</view><block wx:for=\"{{l}}\" wx:key=\"k\"><slot name=\"{{item}}\"/></block><template is=\"t\" data=\"{{...o}}\"/><include src=\"./b.wxml\"/>");
+            g.add_tmpl("warm/b", "<template name=\"t\"><text>{{x}}</text></template>");
+            g.add_script("warm/s", "exports.x = 1");
+            let _ = g.get_tmpl_gen_object_groups();
+            let _ = g.get_wx_gen_object_groups();
+            let _ = g.stringify_tmpl("warm/a");
+            let _ = g.get_runtime_string();
+            let _: Vec<String> = g.direct_dependencies("warm/a").map(|i| i.collect()).unwrap_or_default();
+            let t = StyleSheetTransformer::from_css(
+                "warm.wxss",
+                "@import \"./o.wxss\"; .a .b:hover { width: 10rpx; color: red } :host { margin: calc(1rpx + 2px) } @media (min-width: 10px) { .c { top: 1px } } /* c */",
+                glass_easel_stylesheet_compiler::StyleSheetOptions { class_prefix: Some("p".into()), ..Default::default() },
+            );
+            let (a, b) = t.output_and_low_priority_output();
+            let mut s = String::new();
+            let _ = a.write_str(&mut s);
+            let _ = b.write_str(&mut s);
+            let mut v = vec![];
+            let _ = a.write_source_map(&mut v);
+        });
+    });
+    if let Ok(h) = h {
+        let _ = h.join();
+    }
 }
 
 pub fn canonical_exec(world: &GroupWorld) -> GExec {
@@ -569,6 +606,11 @@ fn gen_file(r: &mut Rng, path: &str, all_paths: &[String], script_paths: &[Strin
             if r.chance(0.6) {
                 chunks.push(format!("<import src=\"{}\"/>", src));
                 ctx.template_names.push(format!("t_{}", p.replace('/', "_")));
+                if r.chance(0.25) {
+                    // the same file again, possibly spelled differently
+                    let again = rel_ref(r, path, p);
+                    chunks.push(format!("<import src=\"{}\"/>", again));
+                }
             } else {
                 ctx.include_targets.push(src);
             }
